@@ -1,7 +1,7 @@
 """Contracts for strax/chunk.py (laws of chunking: C07, C12, C14)."""
 
 from pyvc.contract import Contract, Loop, REG
-from pyvc.engine import RowsT, ArrT, ObjT
+from pyvc.engine import RowsT, ArrT, ObjT, TupleT
 
 F = "strax/chunk.py"
 
@@ -314,6 +314,8 @@ def _csplit_ensures(S, a, r):
         ("early split goes to the latest admissible time",
          S.forall_val(t2 + 1, that + 1, lambda s: S.exists(0, d.n, lambda j: straddles(S, d, j, s)))),
         ("metadata carried over to both halves", S.And(meta(c1), meta(c2))),
+        ("both halves are well-formed chunks again", S.And(S.And(*[f for _, f in chunk_wf(S, c1)]),
+                                                           S.And(*[f for _, f in chunk_wf(S, c2)]))),
     ]
 
 
@@ -329,7 +331,9 @@ chunk_split = REG.add(Contract(
         "ValueError:runs": lambda S, a: S.true},
     calls={"_split_runs_in_chunk": split_runs_abstract},
     notes="ValueError from the sub/superrun bookkeeping of the two constructor calls is not analysed here (C14)",
+    returns=TupleT(CHUNK, CHUNK),
 ))
+CHUNK_MODEL.methods["split"] = chunk_split
 
 
 # --------------------------------------------------------------------------------------
